@@ -207,6 +207,10 @@ func runMerge(which string) func(ci interface{}, a *run.Acc) {
 		// build, so that two builds inside one case do not get colliding ids
 		prepareVecBatch(nil)
 		var leaves *mx.Leaves
+		if c.Share {
+			leaves = mx.NewLeaves()
+			defer leaves.Close()
+		}
 		if c.Pre != nil {
 			// an earlier merge on the same leaf objects: it must be right itself, and it must
 			// not leave anything in its inputs that changes what the second merge produces
@@ -248,6 +252,12 @@ func runMerge(which string) func(ci interface{}, a *run.Acc) {
 		if kind, msg := mergeOracle(which, ev, a); kind != "" {
 			if c.Pre != nil {
 				msg = fmt.Sprintf("(the same input objects were first merged as %s)\n%s", c.Pre, msg)
+			}
+			if c.Share && which == "C15" && kind == "vectors" {
+				// known finding: vector identity is the id stored in the input, so the second
+				// copy of a segment overwrites the first one's entries
+				kind = "vectors-of-a-segment-given-twice"
+				msg = "(equal leaves are ONE segment object, given twice to this merge)\n" + msg
 			}
 			a.Violation(kind+":"+class, fmt.Sprintf("%s (chunk mode %d):\n%s", c.E, c.Mode, msg))
 			a.Outcome("violation")
